@@ -768,23 +768,67 @@ class Executor:
                 continue
             # first try to evaluate the remaining operands without forking, under the guard
             s2.guards.append(t if is_and else z3.Not(t))
-            nob = len(self.obligations)
             try:
-                outs = list(self._cond_seq(vals, i + 1, s2, is_and, node))
-            except Unsupported:
-                outs = None
+                outs = self._speculate(s2, lambda: self._cond_seq(vals, i + 1, s2, is_and, node))
             finally:
                 s2.guards.pop()
-            if outs is not None and len(outs) == 1 and not isinstance(outs[0][0], Raised) and outs[0][1] is s2:
+            if outs is not None:
                 r = outs[0][0]
                 yield (z3.And(t, r) if is_and else z3.Or(t, r)), s2
                 continue
-            del self.obligations[nob:]          # the attempt is repeated properly below
+            # the attempt was rolled back and is repeated properly below
             for b, s3 in self.branch(s2, t):
                 if b == is_and:
                     yield from self._cond_seq(vals, i + 1, s3, is_and, node)
                 else:
                     yield z3.BoolVal(not is_and), s3
+
+    def _speculate(self, s2, run):
+        """Evaluate `run()` (a generator over (value, state)) as a *trial*: if it yields exactly
+        one outcome on the same state the trial is kept, otherwise everything it added to the
+        path context (facts assumed inside forks that ran on this very state object) and to the
+        solver is rolled back -- the caller then repeats the evaluation with proper forking."""
+        ctx = s2.ctx
+        nf, nq, nb = len(ctx.facts), len(ctx.qfacts), len(ctx.bounds)
+        memo0 = dict(getattr(ctx, "memo", None) or {})
+        has_memo = getattr(ctx, "memo", None) is not None
+        cond0 = set(ctx.cond)
+        callmemo0 = dict(getattr(ctx, "callmemo", None) or {}) if hasattr(ctx, "callmemo") else None
+        env0, ghost0 = s2.env, dict(s2.ghost)
+        envcopy = dict(s2.env)
+        nob = len(self.obligations)
+        self.sol.push()
+        try:
+            try:
+                outs = list(run())
+            except Unsupported:
+                outs = None
+        finally:
+            self.sol.pop()
+        ok = outs is not None and len(outs) == 1 and not isinstance(outs[0][0], Raised) and outs[0][1] is s2
+        if ok:
+            # keep the trial: what it added was asserted inside the popped scope -- assert it again
+            for f in ctx.facts[nf:]:
+                self.sol.add_fact(f)
+            for q in ctx.qfacts[nq:]:
+                self.sol.add_q(q)
+            for b in ctx.bounds[nb:]:
+                self.sol.add_bound(b)
+            return outs
+        del ctx.facts[nf:]
+        del ctx.qfacts[nq:]
+        del ctx.bounds[nb:]
+        ctx.cond = cond0
+        if has_memo:
+            ctx.memo = memo0
+        if callmemo0 is not None:
+            ctx.callmemo = callmemo0
+        s2.env = env0
+        s2.env.clear()
+        s2.env.update(envcopy)
+        s2.ghost = ghost0
+        del self.obligations[nob:]
+        return None
 
     def e_Constant(self, e, st):
         if e.value is Ellipsis:
@@ -1031,19 +1075,18 @@ class Executor:
             # try the non-forking combination when both sides are plain booleans
             if isinstance(v, VBool):
                 s2.guards.append(t if is_and else z3.Not(t))
-                nob = len(self.obligations)
                 try:
-                    outs = list(self.boolop(e, vals, i + 1, s2))
-                except Unsupported:
-                    outs = []
+                    outs = self._speculate(s2, lambda: self.boolop(e, vals, i + 1, s2))
                 finally:
                     s2.guards.pop()
-                if not (len(outs) == 1 and isinstance(outs[0][0], VBool) and outs[0][1] is s2):
-                    del self.obligations[nob:]
-                if len(outs) == 1 and isinstance(outs[0][0], VBool) and outs[0][1] is s2:
+                if outs is not None and isinstance(outs[0][0], VBool):
                     r = outs[0][0].t
                     yield VBool(z3.And(t, r) if is_and else z3.Or(t, r)), s2
                     continue
+                if outs is not None:
+                    # a single non-boolean value: fall back to the forking evaluation (the kept trial
+                    # only added definitional facts)
+                    pass
             for b, s3 in self.branch(s2, t):
                 if b == is_and:
                     yield from self.boolop(e, vals, i + 1, s3)
@@ -1120,7 +1163,7 @@ class Executor:
     def identical(self, l, r):
         def pytype(x):
             if isinstance(x, Prim):
-                return {"str": str, "int": int, "bool": bool, "tuple": tuple, "list": list, "type": type}.get(x.name)
+                return {"str": str, "int": int, "bool": bool, "tuple": tuple, "list": list, "type": type, "bytes": bytes}.get(x.name)
             return None
         if pytype(l) is not None or pytype(r) is not None:
             a = pytype(l) or (l.obj if isinstance(l, VConst) else None)
@@ -1221,6 +1264,9 @@ class Executor:
                 raise Unsupported("int in symbolic bytes")
             return V.in_set(item.t, list(container.conc))
         if isinstance(container, VStr):
+            if isinstance(item, VInt) and getattr(self, "c_semantics", False) and container.conc is not None:
+                # Cython: a Py_UCS4 value `in` a str is a test on its code point
+                return V.in_set(item.t, V.codes_of(container))
             if not isinstance(item, VStr):
                 raise Unsupported("'in <str>' with non-str")
             if container.conc is not None:
@@ -2055,6 +2101,8 @@ class Executor:
                 yield from self.exec_block(s.body if z3.is_true(cond) else s.orelse, 0, s2)
                 continue
             f1, f2 = self.split2(s2, cond)
+            if os.environ.get("PYVC_TRACE_IF") and s2.guards:
+                print("IF-under-guards", self.where(s), str(cond)[:120], f1, f2, "guards", len(s2.guards), flush=True)
             if not (f1 and f2):
                 if f1 or f2:
                     s2.assume(cond if f1 else z3.Not(cond))
@@ -2215,14 +2263,19 @@ class Executor:
             w.fields["__stream__"] = VStream(spec.writer, spec)
             self.cur_writer_spec = spec
         self.oblige(st, "loop-invariant-entry", "inv-entry", spec.invariant(self, st), s)
-        names = (self.assigned_names(s.body) | set(spec.lists)) - set(spec.streams)
-        ranges = [range(lo, hi + 1) for (lo, hi) in spec.lists.values()]
+        names = (self.assigned_names(s.body) | set(spec.lists) | set(spec.enums)) - set(spec.streams)
+        ranges = [range(lo, hi + 1) for (lo, hi) in spec.lists.values()] + [range(lo, hi + 1) for (lo, hi) in spec.enums.values()]
         lnames = list(spec.lists)
+        enames = list(spec.enums)
         base = st.fork()
 
         def havocked(src, lens):
             h = src.fork()
             for nm in names:
+                if nm in enames:
+                    # an integer the contract enumerates (the case split makes it concrete)
+                    h.env[nm] = VInt(lens[len(lnames) + enames.index(nm)])
+                    continue
                 if nm in lnames:
                     L = lens[lnames.index(nm)]
                     items = []
@@ -2270,9 +2323,6 @@ class Executor:
                             except Exception as e:
                                 print("   ", ast.unparse(sub), "=> EXC", e, flush=True)
                 inv_t = spec.invariant(self, body_st)
-                if z3.is_false(z3.simplify(inv_t)) and any(lens):
-                    # a contradictory invariant would make every obligation of this case vacuous
-                    raise Unsupported(f"loop invariant is unsatisfiable for list lengths {lens} at {self.where(s)}")
                 body_st.assume(inv_t)
                 conds = list(self.eval_cond(s.test, body_st))
                 if len(conds) != 1 or isinstance(conds[0][0], Raised):
